@@ -74,6 +74,10 @@ func cellsMatchEcho(res *hrpc.Result, row []byte, opid string) string {
 
 func hashOp(s string) uint32 { return uint32(fw.Hash64(s)) }
 
+func regionBoom(conn int64, callID uint32, region []byte) string {
+	return fmt.Sprintf("region-boom-%d-%d-%x.", conn, callID, fw.Hash64(string(region)))
+}
+
 func runC02History(c *fw.Ctx, id string, cfg c02Config, seed int64) {
 	cl := sim.NewCluster(seed, cfg.Servers)
 	defer cl.Close()
@@ -96,8 +100,10 @@ func runC02History(c *fw.Ctx, id string, cfg c02Config, seed int64) {
 	var regionExcN int32
 	cl.OnRegionAction = func(req *sim.Request, region []byte) *sim.Exc {
 		if cfg.RegionExc > 0 && hashOp(fmt.Sprintf("%d/%d/%s", req.Conn.ID, req.CallID, region))%uint32(cfg.RegionExc) == 0 {
-			n := atomic.AddInt32(&regionExcN, 1)
-			return &sim.Exc{Class: sim.ExcNoSuchCF, Stack: fmt.Sprintf("%s: region-boom-%d", sim.ExcNoSuchCF, n)}
+			atomic.AddInt32(&regionExcN, 1)
+			// the marker names the (connection, call, region) it was produced for, so
+			// that a caller handed the exception of another region is told apart
+			return &sim.Exc{Class: sim.ExcNoSuchCF, Stack: fmt.Sprintf("%s: %s", sim.ExcNoSuchCF, regionBoom(req.Conn.ID, req.CallID, region))}
 		}
 		return nil
 	}
@@ -117,6 +123,8 @@ func runC02History(c *fw.Ctx, id string, cfg c02Config, seed int64) {
 		inc  int64
 		amt  int64
 		err  error
+		own  bool // had a context of its own that was cancelled while the batch was being sent
+		sib  bool // in the same batch as such a call
 	}
 	var mu sync.Mutex
 	var outs []outcome
@@ -182,12 +190,39 @@ func runC02History(c *fw.Ctx, id string, cfg c02Config, seed int64) {
 					nb := 1 + r.Intn(8)
 					var calls []hrpc.Call
 					var os []outcome
+					// one call of some batches has its own context, cancelled while the
+					// batch sits in the send queue: the multi-request then goes out
+					// without it and every other call must still get its own answer
+					cancelAt := -1
+					if nb > 1 && r.Intn(3) == 0 {
+						cancelAt = r.Intn(nb - 1)
+					}
+					var cancelOne context.CancelFunc
 					for n := 0; n < nb; n++ {
 						call, o := mk(kinds[r.Intn(4)], n) // no increments in batches here
+						if n == cancelAt {
+							var cctx context.Context
+							cctx, cancelOne = context.WithCancel(ctx)
+							o.own = true
+							switch o.kind {
+							case "get":
+								call, _ = hrpc.NewGet(cctx, []byte("t"), o.row, hrpc.Families(map[string][]string{"echo": {o.opid}}))
+							default:
+								o.kind = "put"
+								call, _ = hrpc.NewPut(cctx, []byte("t"), o.row, map[string]map[string][]byte{"f": {o.opid: []byte("v-" + o.opid)}})
+							}
+						}
+						o.sib = cancelAt >= 0 && n != cancelAt
 						calls = append(calls, call)
 						os = append(os, o)
 					}
+					if cancelOne != nil {
+						time.AfterFunc(time.Duration(100+r.Intn(3000))*time.Microsecond, cancelOne)
+					}
 					res, _ := client.SendBatch(ctx, calls)
+					if cancelOne != nil {
+						cancelOne()
+					}
 					for n := range os {
 						os[n].err = res[n].Error
 						if res[n].Msg != nil {
@@ -207,6 +242,7 @@ func runC02History(c *fw.Ctx, id string, cfg c02Config, seed int64) {
 	type simRec struct {
 		execs  int
 		faults []string
+		boom   string // marker of the last region-level exception answered for it
 	}
 	simOps := map[string]*simRec{}
 	frames := map[int64][]uint32{}
@@ -227,6 +263,7 @@ func runC02History(c *fw.Ctx, id string, cfg c02Config, seed int64) {
 				s.execs++
 			} else {
 				s.faults = append(s.faults, e.Info)
+				s.boom = regionBoom(e.Conn, e.CallID, []byte(e.Region))
 			}
 		case "frame":
 			frames[e.Conn] = append(frames[e.Conn], e.CallID)
@@ -265,8 +302,24 @@ func runC02History(c *fw.Ctx, id string, cfg c02Config, seed int64) {
 	c.Count("multi_requests_20plus_actions", multiSizes[3])
 	c.Count("responses_delivered_out_of_order", outOfOrder)
 	for _, o := range outs {
-		c.Count("operations_matched", 1)
+		if o.own {
+			// cancelled by its caller: whether it was sent is a matter of timing
+			c.Count("calls_cancelled_inside_a_batch", 1)
+			if simOps[o.opid] == nil {
+				c.Count("calls_cancelled_before_being_sent", 1)
+			}
+			if o.err == nil && o.res == nil {
+				c.Violate(id, "corr:no-result", fmt.Sprintf("%s %s (own context cancelled): neither response nor error: %s", o.kind, o.opid, cfg), cfg)
+			}
+			continue
+		}
 		s := simOps[o.opid]
+		if o.sib && s == nil && o.err != nil && strings.Contains(o.err.Error(), "not executed due to another error") {
+			// the cancelled call ended the batch before anything was sent
+			c.Count("calls_not_executed_because_a_sibling_was_cancelled", 1)
+			continue
+		}
+		c.Count("operations_matched", 1)
 		if s == nil {
 			c.Violate(id, "corr:op-never-reached-server", fmt.Sprintf("%s %s returned (err=%v) but no server saw it: %s", o.kind, o.opid, o.err, cfg), cfg)
 			continue
@@ -280,9 +333,10 @@ func runC02History(c *fw.Ctx, id string, cfg c02Config, seed int64) {
 				continue
 			}
 			if strings.HasPrefix(f, "region-level") {
-				if !strings.Contains(o.err.Error(), "region-boom-") {
-					c.Violate(id, "corr:wrong-error", fmt.Sprintf("%s %s: server failed its region (%s), caller got %v: %s", o.kind, o.opid, f, o.err, cfg), cfg)
+				if !strings.Contains(o.err.Error(), s.boom) {
+					c.Violate(id, "corr:wrong-error", fmt.Sprintf("%s %s: server failed its region (%s, marker %s), caller got %v: %s", o.kind, o.opid, f, s.boom, o.err, cfg), cfg)
 				}
+				c.Count("region_level_exceptions_matched", 1)
 			} else if !strings.Contains(o.err.Error(), excMarker+o.opid) {
 				c.Violate(id, "corr:wrong-error", fmt.Sprintf("%s %s: caller got the error of another operation: %v: %s", o.kind, o.opid, o.err, cfg), cfg)
 			}
